@@ -146,6 +146,13 @@ fn grid(n: int) -> [[int]] {
 }
 let total_f = 0.5;
 fn accumulate(f: float) -> float { total_f = total_f + f; total_f }
+let thread_ok = false;
+fn doomed(x: int) { if x > 0 - 1000000 { throw("thread failed"); } thread_ok = true; }
+fn wait_for_thread(x: int) -> int {
+    spawn doomed(x);
+    while !thread_ok { time.sleep(0.002); }
+    1
+}
 fn prefix_len(n: int) -> int {
     let k = 0;
     for c in "homescript" {
@@ -341,6 +348,11 @@ func c16GenOp(s *simrt.Sim, m *c16Model, pfault int, force int) c16Op {
 			a := intArgs[pick(len(intArgs), "arg")]
 			return c16Op{fn: "div", args: []value.Value{vInt(a), vInt(0)}, desc: fmt.Sprintf("div(%d,0)", a), failKinds: []string{"fatal:ValueError"}}
 		case 2:
+			if pick(2, "faultkind2") == 1 {
+				// the called function waits for a thread it spawned, and that thread fails: the call fails
+				// with the thread's interrupt (and does not hang until the host gives up)
+				return c16Op{fn: "wait_for_thread", args: []value.Value{vInt(1)}, desc: "wait_for_thread(1)", failKinds: []string{"fatal:UncaughtThrow"}}
+			}
 			return c16Op{pure: true, reusable: true, fn: "deep", args: []value.Value{vInt(300)}, desc: "deep(300)", failKinds: []string{"fatal:StackOverFlow"}}
 		default:
 			// handled by the caller: print fault / cancel fault on an ordinary op
@@ -859,6 +871,7 @@ func runC16(t *testing.T, spec RunSpec) *Verdict {
 				}
 				async := s.Choose(2, "bad-call-mode") == 1
 				rejected := false
+				var badResult runtime.FunctionInvocationResult
 				func() {
 					defer func() {
 						if r := recover(); r != nil {
@@ -869,18 +882,25 @@ func runC16(t *testing.T, spec RunSpec) *Verdict {
 					if async {
 						c := env.vm.SpawnAsync(bad, nil, nil, nil)
 						num, i := env.vm.Wait()
-						env.vm.HandleTermination(c, bad, i, num)
+						badResult = env.vm.HandleTermination(c, bad, i, num)
 					} else {
-						env.vm.SpawnSync(bad, nil, nil)
+						badResult = env.vm.SpawnSync(bad, nil, nil)
 					}
 				}()
 				s.ClearDeadline("rejected-call-returns")
 				history = append(history, "REJECTED "+what)
-				if !rejected {
+				switch {
+				case rejected:
+					s.Probe("invalid-invocation-rejected")
+				case badResult.Exception != nil:
+					// not a panic but a failure result: a failed call like any other - later calls are
+					// answered with a failure, promptly
+					s.Probe("invalid-invocation-answered-with-a-failure")
+					m.failed = true
+				default:
 					s.Probe("invalid-invocation-was-not-rejected")
 					return // the VM ran something the model knows nothing about
 				}
-				s.Probe("invalid-invocation-rejected")
 			}
 			if !m.failed && s.Choose(10, "idle-wait") == 1 {
 				// waiting when nothing runs returns at once and reports nothing
